@@ -8,14 +8,18 @@ Targets == UNION {[1..k -> Seg] : k \in 1..MaxLen}
 \* at most one ABS splice, and it only makes sense at the front (after the leading slashes)
 Sensible(s) == \A i \in DOMAIN s : s[i] = "ABS" => i = 1
 Leads == {1, 2, 3, 4}
-Encs == {"plain", "pctdot", "pctslash", "mixedcase"}
-Cases == {[segs |-> s, lead |-> l, enc |-> e, norm |-> Norm(s), rawescapes |-> RawEscapes(s)] :
+Encs == {"plain", "pctdot", "pctslash", "mixedcase", "allpctslash", "dblpctdot", "dblpctslash", "dblboth"}
+\* doubly encoded: after the ONE decoding step a server owes a request target the dots and
+\* slashes are still escaped, i.e. the target names one (odd) literal member of the root -
+\* only the safety clauses apply, there is no dot-segment normal form to compare with
+Dbl == {"dblpctdot", "dblpctslash", "dblboth"}
+Cases == {[segs |-> s, lead |-> l, enc |-> e, norm |-> IF e \in Dbl THEN <<"LITERAL">> ELSE Norm(s), rawescapes |-> RawEscapes(s)] :
             s \in {t \in Targets : Sensible(t)}, l \in Leads, e \in Encs}
 \* keep the table finite but not wasteful: encodings matter only with dot segments,
 \* several leading slashes mostly with ABS or a dot-dot start
 Keep(c) == /\ (c.enc # "plain" => \E i \in DOMAIN c.segs : c.segs[i] \in {".", ".."})
            /\ (c.lead > 1 => c.segs[1] \in {"ABS", "..", "N1"})
-           /\ (c.enc = "pctslash" => Len(c.segs) >= 2)
+           /\ (c.enc \in {"pctslash", "allpctslash", "dblpctslash", "dblboth"} => Len(c.segs) >= 2)
 Table == {c \in Cases : Keep(c)}
 
 VARIABLE x
